@@ -405,7 +405,7 @@ pub fn take_panic_location() -> Option<String> {
     LAST_PANIC_LOC.with(|c| c.borrow_mut().take())
 }
 
-fn convert_result(r: Result<(http::request::Parts, Bytes, scratchstack_aws_signature::auth::SigV4AuthenticatorResponse), BoxError>) -> Res {
+pub fn convert_result(r: Result<(http::request::Parts, Bytes, scratchstack_aws_signature::auth::SigV4AuthenticatorResponse), BoxError>) -> Res {
     match r {
         Ok((parts, body, resp)) => {
             let mut headers = Vec::new();
